@@ -95,6 +95,77 @@ def mon_c05(run, world):
     return bad
 
 
+def replay_updates(ctx, n):
+    """generated Alibaba-style traces replayed by `python main.py --execution_mode=replay --replay_trace=alibaba` with
+    --workload_update_interval (the loader hands out its growing Workload window by window) under EDF/FIFO/LSF with a generous
+    timeout: simulate() must return, write SIMULATOR_END, and every released task must finish"""
+    import shutil
+    import subprocess
+    import tempfile
+    from props import c09
+    rng = random.Random("C05-replay-updates/%s" % ctx.seed)
+    base = tempfile.mkdtemp(prefix="c05replay_", dir=core.BUILD if os.path.isdir(core.BUILD) else None)
+    ran = bad = multi = 0
+    try:
+        for k in range(n):
+            dags = c09.gen_trace(rng)
+            for tasks in dags.values():
+                for t in tasks:
+                    t[1] = rng.choice([60, 80, 120])      # (the loader keeps graphs whose critical path is within (100, 1000))
+            d = os.path.join(base, "t%d" % k)
+            os.makedirs(d)
+            tp = os.path.join(d, "trace.pkl")
+            w = subprocess.run([core.PY, "-c", c09.WRITE_TRACE, core.REPO, tp], input=json.dumps(dags), capture_output=True,
+                               text=True, timeout=120)
+            if w.returncode != 0:
+                ctx.broken.append({"kind": "correspondence", "name": "S-replay-updates (cannot write a trace)", "detail": w.stderr[-300:]})
+                return
+            wk = os.path.join(d, "workers.yaml")
+            open(wk, "w").write("- name: WorkerPool_1\n  workers:\n      - name: Worker_1_1\n        resources:\n"
+                                "            - name: Slot_1\n              quantity: 8\n")
+            flags = ["--execution_mode=replay", "--replay_trace=alibaba", "--workload_profile_path=" + tp, "--worker_profile_path=" + wk,
+                     "--scheduler=%s" % rng.choice(["EDF", "FIFO", "LSF"]), "--scheduler_runtime=0", "--random_seed=%d" % rng.randrange(1, 10 ** 6),
+                     "--override_release_policy=poisson", "--override_poisson_arrival_rate=0.01",
+                     "--override_num_invocation=%d" % rng.randint(3, 6), "--min_deadline_variance=50", "--max_deadline_variance=150",
+                     "--workload_update_interval=%d" % rng.choice([100, 200, 400]), "--log_level=info", "--csv_file_name=out.csv",
+                     "--log_file_name=log.txt", "--log_dir=" + d]
+            env = dict(os.environ, PYTHONHASHSEED="0", PYTHONPATH=core.REPO)
+            try:
+                pr = subprocess.run([core.PY, os.path.join(core.REPO, "main.py")] + flags, cwd=d, env=env, capture_output=True, text=True,
+                                    timeout=600)
+            except subprocess.TimeoutExpired:
+                continue                 # inconclusive under load, never a verdict
+            ran += 1
+            rows = [l.rstrip("\n").split(",") for l in open(os.path.join(d, "out.csv"))] if os.path.exists(os.path.join(d, "out.csv")) else []
+            rel = sum(1 for r in rows if len(r) > 1 and r[1] == "TASK_RELEASE")
+            fin = sum(1 for r in rows if len(r) > 1 and r[1] == "TASK_FINISHED")
+            upd = sum(1 for r in rows if len(r) > 3 and r[1] == "UPDATE_WORKLOAD" and r[2] != "0")
+            multi += upd >= 2
+            ended = any(len(r) > 1 and r[1] == "SIMULATOR_END" for r in rows)
+            msgs = []
+            if pr.returncode != 0:
+                err = [l for l in pr.stderr.strip().split("\n") if l.strip()]
+                msgs.append("main.py exited with %d: %s" % (pr.returncode, err[-1][:200] if err else ""))
+            elif not ended:
+                msgs.append("the run wrote no SIMULATOR_END row")
+            elif fin != rel:
+                msgs.append("%d tasks were released but %d finished (EDF/FIFO/LSF without deadline enforcement, timeout 10^7 default)" % (rel, fin))
+            if msgs:
+                bad += 1
+                if bad <= 2:
+                    ctx.violation("replay_updates_t%d" % k, {
+                        "stream": "S-replay-updates", "trace": dags, "flags": [f for f in flags if "profile_path" not in f and "log_dir" not in f],
+                        "failures": msgs,
+                        "what": "a replayed trace whose work arrives in several workload updates did not terminate properly / finish its work"})
+    finally:
+        shutil.rmtree(base, ignore_errors=True)
+    ctx.cov["streams"]["S-replay-updates"] = {"traces": ran, "failing": bad, "runs_with_work_in_two_or_more_updates": multi}
+    ctx.cov["evaluations"] += ran
+    ctx.rules.append("S-replay-updates: generated Alibaba-style traces replayed with --workload_update_interval 100-400 (poisson arrivals "
+                     "at rate 0.01, 3-6 invocations: work arrives in several update windows) under EDF/FIFO/LSF; the run must end "
+                     "normally with SIMULATOR_END and as many TASK_FINISHED as TASK_RELEASE rows")
+
+
 def run(ctx):
     worlds, runs = simcheck.run_sim_property(ctx, ["C05"], mon_c05,
                                              "the simulation did not terminate properly, handled events after the timeout, "
@@ -160,6 +231,9 @@ def run(ctx):
     ctx.cov["input_distribution"]["branch_worlds_completed_branch_tasks"] = taken
     ctx.rules.append("S-sim-branches: feasible worlds under EDF/FIFO/LSF (nothing cancels, timeout 10^6) whose first job graph is a "
                      "conditional without a join (each branch ends in its own sink) or with a side output inside a branch")
+    # ---- S-replay-updates: the trace-replay path with PERIODIC workload updates (work arrives in several batches): every run must
+    # end normally and finish everything it released (regression stream of the repaired finding F43)
+    replay_updates(ctx, 4 if ctx.tier == "quick" else 24)
     # ---- known finding F8: a strategy with runtime 0 livelocks simulate()
     for k in core.load_known():
         if k.get("status") == "known" and k.get("property") == "C05" and k.get("id") == "F8":
